@@ -255,7 +255,8 @@ def gen_case(rng):
             mem.pop(rng.choice(["SwapTotal", "SwapFree"]))
     zones = None
     if rng.random() < 0.8:
-        n = rng.randrange(0, 7)
+        # a quarter of the machines have several NUMA nodes: the zone names repeat, once per node
+        n = rng.randrange(0, 7) if rng.random() < 0.75 else rng.randrange(7, 25)
         zones = [rng.choice([0, 32, rng.randrange(0, 100), rng.randrange(0, 100000)]) for _ in range(n)]
     if prof == "distorted":
         kind = rng.choice(["cb_gt_total", "avail_gt_total", "avail_zero", "total_zero", "free_gt_total",
